@@ -214,12 +214,15 @@ def single_writer_check(ctx):
          'quantization_info.steps_per_quarter is written only by quantize_note_sequence' if ok else
          'quantization_info.steps_per_quarter is written by %s: the "one time signature / tempo" precondition of the extractors is no longer established in one place' % [w.fq for w in writers],
          construct='writers of quantization_info.steps_per_quarter')
+  cp = [st.targets[0].id for st in U.walk_stmts(fi.node) if isinstance(st, ast.Assign) and isinstance(st.targets[0], ast.Name) and
+        isinstance(st.value, ast.Call) and dotted(st.value.func) == 'copy.deepcopy']
+  ctx.require(len(cp) == 1, 'quantize_note_sequence: the copy of the input was not found')
   for field in ('time_signatures', 'tempos'):
-    has_del = any(isinstance(st, ast.Delete) and norm_text(st.targets[0]) == 'qns.%s[1:]' % field for st in U.walk_stmts(fi.node))
+    has_del = any(isinstance(st, ast.Delete) and norm_text(st.targets[0]) == '%s.%s[1:]' % (cp[0], field) for st in U.walk_stmts(fi.node))
     ctx.ob('ORD/single-writer', fi, fi.node, has_del,
            'quantize_note_sequence truncates %s to one element' % field if has_del else
            'quantize_note_sequence no longer truncates %s to one element, but extractors read [0]' % field,
-           construct='del qns.%s[1:]' % field)
+           construct='del <copy>.%s[1:]' % field)
 
 
 SL = 'note_seq/sequences_lib.py'
@@ -265,3 +268,5 @@ MUTANTS = [
     Mutant('transpose: max() written as guarded store', SL, '      end_time = max(end_time, note.end_time)', '      if note.end_time > end_time:\n        end_time = note.end_time', expect='silent'),
     Mutant('midi: notes loop sorted (bag anyway)', 'note_seq/midi_io.py', '  for seq_note in sequence.notes:', '  for seq_note in sorted(sequence.notes, key=lambda n: n.start_time):', expect='silent'),
 ]
+
+RENAME_FUNCS = [('note_seq/' + fq.split(':')[0] + '.py', fq.split(':')[1]) for fq, _p in SCOPE]
